@@ -97,7 +97,12 @@ M_C11(cfg, meta, pre, r, post, g) ==
 \* C14: whether the body runs depends on exactly the cache the scope designates: the calling
 \* thread's own cache for thread scope, the one shared cache otherwise
 M_C14(cfg, meta, pre, r, post, g) ==
-  r.ev = "get" => (r.exec <=> ShouldExecute(cfg, meta, pre, r))
+  /\ r.ev = "get" => (r.exec <=> ShouldExecute(cfg, meta, pre, r))
+  \* thread scope: a store is bounded and evicts exactly as this thread's own cache requires - other
+  \* threads' entries neither count against its limits nor make room in it
+  /\ (meta.kind = "thread" /\ r.ev = "fin") =>
+        /\ P_C04(cfg, pre, EngEvent(meta, r), post, g)
+        /\ P_C05(cfg, pre, EngEvent(meta, r), post, g)
 
 \* C15 (per lookup): exactly one counter moves, and it is the hit counter iff an unexpired entry
 \* was found
